@@ -570,9 +570,11 @@ def shape_cases(rng, tier):
     out = []
     for N in NS:
         for L in sorted({max(N - 1, 0), N, N + 1}):
-            for kind in ('list', 'tuple', 'set', 'iter', 'dict', 'fset', 'kview', 'vview', 'ordering'):
+            for kind in ('list', 'tuple', 'set', 'iter', 'dict', 'fset', 'kview', 'iview', 'vview', 'ordering'):
                 if kind == 'dict':
                     inner = {'m': 'dict', 'l': [[c10.enc_scalar('k%d' % i), c10.enc_scalar(i)] for i in range(L)]}
+                elif kind == 'iview':       # items(): finalised into a list of L pairs, the view is checked by len
+                    inner = {'q': kind, 'l': [{'q': 'tuple', 'l': [c10.enc_scalar('k%d' % i), c10.enc_scalar(i)]} for i in range(L)]}
                 else:
                     inner = {'q': kind, 'l': [c10.enc_scalar(i) for i in range(L)]}
                 hashable_inner = kind in ('tuple', 'fset', 'iter', 'vview', 'ordering')
@@ -1036,6 +1038,33 @@ def run(env, res):
     outs = [None] * len(allc)
     for i, r in zip(order, results):
         outs[i] = r
+    # A watchdog timeout in the pool may be nothing but a loaded machine (16 workers run side by side, and other checks
+    # may run next to this one).  Every unexpected timeout is therefore re-tried ALONE, one case at a time, with twelve
+    # times the allowance; only a case that still does not return counts as "does not return".  At most RETRY_MAX cases
+    # are re-tried: if every one of them returns when run alone, the remaining timeouts are put down to load and skipped
+    # (counted in the histogram); if one still hangs, the others keep their timeout verdict.
+    RETRY_MAX = 8
+    timed_out = [i for i, r in enumerate(outs) if r and r['outcome'] in ('timeout', 'worker-died')
+                 and not (allc[i].get('part') in ('S', 'E') and known_nested(allc[i]))]
+    retried = still = 0
+    if timed_out:
+        w = Worker()
+        try:
+            for i in timed_out[:RETRY_MAX]:
+                r2 = w.ask(allc[i], timeout=12 * WATCHDOG)
+                retried += 1
+                if r2['outcome'] in ('timeout', 'worker-died'):
+                    still += 1
+                else:
+                    outs[i] = r2
+        finally:
+            w.kill()
+        if still == 0:
+            for i in timed_out[RETRY_MAX:]:
+                outs[i] = dict(outcome='skipped', pulls=None, maxlen=None)
+    hist['pool_timeouts'] = len(timed_out)
+    hist['pool_timeouts_retried_alone'] = retried
+    hist['pool_timeouts_confirmed'] = still
     pool_s = time.time() - t0
     positions = set()
     pulled = 0
